@@ -512,6 +512,9 @@ func runCURSORCLONE(c *Ctx) {
 	if fn == nil || clone == nil || load == nil {
 		return
 	}
+	// Clone may delegate to a private helper that Cursor uses directly as well (`m.snapshot(ctx)`)
+	body := cloneBodyFn(c, clone)
+	isCloneFn := func(f *ssa.Function) bool { return f != nil && (f == clone || (body != clone && f == body)) }
 	// the local holding Clone's result
 	var nm *ssa.Alloc
 	for _, b := range fn.Blocks {
@@ -521,7 +524,7 @@ func runCURSORCLONE(c *Ctx) {
 				continue
 			}
 			if ex, ok := st.Val.(*ssa.Extract); ok && ex.Index == 0 {
-				if call, ok := ex.Tuple.(*ssa.Call); ok && ir.Callee(call.Call) == clone {
+				if call, ok := ex.Tuple.(*ssa.Call); ok && isCloneFn(ir.Callee(call.Call)) {
 					nm, _ = st.Addr.(*ssa.Alloc)
 				}
 			}
@@ -540,8 +543,36 @@ func runCURSORCLONE(c *Ctx) {
 			}
 			isClone := false
 			if ex, ok := st.Val.(*ssa.Extract); ok && ex.Index == 0 {
-				if call, ok := ex.Tuple.(*ssa.Call); ok && ir.Callee(call.Call) == clone {
+				if call, ok := ex.Tuple.(*ssa.Call); ok && isCloneFn(ir.Callee(call.Call)) {
 					isClone = true
+					// the helper may hand back the clone's root node as a further result: it is the node it installed
+					if h := ir.Callee(call.Call); h == body && body != clone && h.Signature.Results().Len() >= 2 && isNodePtr(h.Signature.Results().At(1).Type()) {
+						same := true
+						hei := ir.ErrorResultIndex(h.Signature)
+						for _, r := range ir.Returns(h) {
+							if hei >= 0 && !ir.IsNilConst(r.Results[hei]) {
+								continue
+							}
+							if ir.IsNilConst(r.Results[1]) {
+								continue
+							}
+							installed := false
+							for _, hb := range h.Blocks {
+								for _, hi := range hb.Instrs {
+									if _, f, hst, ok := mastFieldStore(hi); ok && f == "root" && ir.Strip(hst.Val) == ir.Strip(r.Results[1]) {
+										installed = true
+									}
+								}
+							}
+							same = same && installed
+						}
+						if same {
+							c.OK(P.InstrPos(st), "the cursor's root node comes with the clone", "the helper hands back the node it installed as the clone's root", false)
+						} else {
+							c.Violation(fn, P.InstrPos(st), "Cursor path rooted in the original tree",
+								"the node the helper hands back next to the clone is not the node it installed as the clone's root: the cursor walks nodes that do not belong to the version it captured")
+						}
+					}
 				}
 			}
 			if isClone {
@@ -1107,10 +1138,8 @@ func minLayerHeight(c *Ctx, v ssa.Value, depth int) int {
 			if mastFieldLoad(a, "height") {
 				heightOK = true
 			}
-			if ex, ok := ir.Origin(a).(*ssa.Extract); ok && ex.Index == 0 {
-				if lc, ok := ex.Tuple.(*ssa.Call); ok && strings.HasPrefix(c.Facts.External(lc), "callback:keyLayer") {
-					layerOK = true
-				}
+			if isKeyLayerResult(c, a, 0) {
+				layerOK = true
 			}
 		}
 		if layerOK && heightOK {
@@ -2106,4 +2135,39 @@ func powRotated(exit *ssa.Phi, isRootField func(ssa.Value, string) bool) (ok boo
 		}
 	}
 	return true, "", true
+}
+
+// isKeyLayerResult: v is the layer the tree's layer callback computed — result #0 of a call of the keyLayer field, or of
+// a private helper (`layerOf(key)`) whose every non-error return hands back such a result.
+func isKeyLayerResult(c *Ctx, v ssa.Value, d int) bool {
+	if d > 2 {
+		return false
+	}
+	ex, ok := ir.Origin(v).(*ssa.Extract)
+	if !ok || ex.Index != 0 {
+		return false
+	}
+	call, ok := ex.Tuple.(*ssa.Call)
+	if !ok {
+		return false
+	}
+	if strings.HasPrefix(c.Facts.External(call), "callback:keyLayer") {
+		return true
+	}
+	sc := ir.Callee(call.Call)
+	if sc == nil || sc.Blocks == nil || !isOwn(c.P, sc) {
+		return false
+	}
+	ei := ir.ErrorResultIndex(sc.Signature)
+	n := 0
+	for _, r := range ir.Returns(sc) {
+		if ei >= 0 && ei < len(r.Results) && !ir.IsNilConst(r.Results[ei]) {
+			continue
+		}
+		if len(r.Results) == 0 || !isKeyLayerResult(c, r.Results[0], d+1) {
+			return false
+		}
+		n++
+	}
+	return n > 0
 }
